@@ -229,3 +229,71 @@ Example client_round_trip :
   /\ client_get ex_hash ex_decompress ex_compress true 2%nat [0%nat] [1%nat]
        (fun _ => inl [1; 2; 3; 4; 5]) (mkD 15 5) = inl [1; 2; 3; 4; 5].
 Proof. vm_compute. split; reflexivity. Qed.
+
+(** ** The monitor used on implementation traces never fires on the model.
+
+    [mon14 inp (orc res)] is the property as a decidable check on an
+    implementation result [res]; [agree14 inp (run14 inp orc) res] is the judge's
+    test that [res] is an outcome the model allows (it accepts a SET of results:
+    the alternative failure codes of a compressed upload, FindMissing answers up
+    to order, any prefix of a compressed read cut short by a failing Send).
+    For every input, every oracle and every result the judge accepts, all twelve
+    clauses are silent.  [inp_wf inp] (Run/R14Proofs.v) is
+      - for an identity ByteStream.Read (kind 1, compressor 0): chunk size >= 1
+        and an injected Send failure has a non-zero code;
+      - for a client<->server case (kind 5): chunk size >= 1, the blob of a Put
+        and the size of a Get at most [backend_max] (1 MiB, the harness's
+        ToByteSlice limit), FindMissing sizes >= 0.
+    No condition for Write, BatchUpdateBlobs, BatchReadBlobs, FindMissingBlobs,
+    compressed reads and the ActionCache. *)
+From BBS Require Import Common.Sx Run.R14 Run.R14Proofs.
+
+Theorem monitor_silent_on_agreeing_observation : forall inp obs,
+  inp_wf inp ->
+  agree14 inp (run14 inp (sx_nth obs 0)) (sx_nth obs 1) = true ->
+  mon14 inp obs = [].
+Proof. exact mon14_silent_on_agreeing. Qed.
+Print Assumptions monitor_silent_on_agreeing_observation.
+
+(** ... in particular on the model's own (primary) outcome, which the judge accepts. *)
+Theorem model_outcome_is_accepted : forall inp orc,
+  agree14 inp (run14 inp orc) (model_res inp orc) = true.
+Proof. exact agree14_model_res. Qed.
+Print Assumptions model_outcome_is_accepted.
+
+Theorem monitor_silent_on_model : forall inp orc,
+  inp_wf inp -> mon14 inp (L [orc; model_res inp orc]) = [].
+Proof. exact mon14_silent_on_model. Qed.
+Print Assumptions monitor_silent_on_model.
+
+(** Each hypothesis is needed: chunk 0 / Send failure "code 0" on an identity
+    read (clause 6); client<->server with chunk 0, a Get of an absent digest of
+    1 MiB + 1 bytes, a FindMissing with a negative size, a Put of a 1 MiB + 1
+    byte blob (clause 11).  harness/c14.go rejects all of these except the
+    oversized Get (sizes are only bounded from below). *)
+Example monitor_domain_boundary :
+  (let inp := L [A 1; L [L [A 7]]; L [A 0; A 0; A 1]; A 0; A 0; A 0; A 0; L []] in
+   mon14 inp (L [L []; model_res inp (L [])]) = [6])
+  /\ (let inp := L [A 1; L [L [A 7]]; L [A 0; A 0; A 1]; A 0; A 0; A 0; A 1; L [A 0; A 0]] in
+      mon14 inp (L [L []; model_res inp (L [])]) = [6])
+  /\ (let inp := L [A 5; L [L [A 7]]; A 0; A 0; L [L [A 0; A 0; A 1]]] in
+      mon14 inp (L [L []; model_res inp (L [])]) = [11])
+  /\ (let inp := L [A 5; L [L [A 7]]; A 0; A 1; L [L [A 1; A 0; A 1048577]]] in
+      mon14 inp (L [L []; model_res inp (L [])]) = [11])
+  /\ (let inp := L [A 5; L [L [A 7]]; A 0; A 1; L [L [A 2; L [L [A 0; A (-1)]]]]] in
+      mon14 inp (L [L []; model_res inp (L [])]) = [11])
+  /\ (let inp := L [A 5; L [L (map A (repeat 0 (Z.to_nat 1048577)))]; A 0; A 1048577; L [L [A 0; A 0; A 1048577]]] in
+      mon14 inp (L [L []; model_res inp (L [])]) = [11]).
+Proof.
+  exact (conj read_chunk_needed (conj read_sendfail_code_needed (conj cs_chunk_needed
+          (conj cs_get_size_needed (conj cs_fm_size_needed cs_put_size_needed))))).
+Qed.
+
+(** Non-vacuity: a client<->server case (zstd, chunk 2: Put, Get, FindMissing) in the domain. *)
+Example monitor_silent_example :
+  let inp := L [A 5; L [L [A 7; A 8; A 9]]; A 1; A 2;
+                L [L [A 0; A 0; A 3]; L [A 1; A 0; A 3]; L [A 2; L [L [A 0; A 3]; L [A 0; A 4]]]]] in
+  inp_wf inp
+  /\ model_res inp (L []) = L [L [L [A 0; L []]; L [A 0; L [A 7; A 8; A 9]]; L [A 0; L [L [A 0; A 4]]]];
+                               L [L [A 0; A 3; L [A 7; A 8; A 9]]]].
+Proof. exact cs_ok_example. Qed.
